@@ -151,20 +151,19 @@ end AL
 
 /-! ## the prefix walk -/
 
-theorem prefixesDesc_nil : prefixesDesc [] = [] := by simp [prefixesDesc]
-
-theorem prefixesDesc_ne_nil (l : FullName) (h : l ≠ []) :
-    prefixesDesc l = l :: prefixesDesc l.dropLast := by
-  cases l with
-  | nil => exact absurd rfl h
-  | cons a t => rw [prefixesDesc]
+theorem prefixesDesc_nil : prefixesDesc [] = [] := rfl
 
 theorem prefixesDesc_concat (l : FullName) (a : Name) :
     prefixesDesc (l ++ [a]) = (l ++ [a]) :: prefixesDesc l := by
-  rw [prefixesDesc_ne_nil _ (by simp), List.dropLast_concat]
+  simp [prefixesDesc, prefixesAux]
 
 theorem eq_concat_of_ne_nil {α : Type} (l : List α) (h : l ≠ []) : ∃ t a, l = t ++ [a] :=
   ⟨l.dropLast, l.getLast h, (List.dropLast_concat_getLast h).symm⟩
+
+theorem prefixesDesc_ne_nil (l : FullName) (h : l ≠ []) :
+    prefixesDesc l = l :: prefixesDesc l.dropLast := by
+  obtain ⟨t, a, rfl⟩ := eq_concat_of_ne_nil l h
+  rw [prefixesDesc_concat, List.dropLast_concat]
 
 theorem list_concat_induction {α : Type} {P : List α → Prop} (l : List α) (h0 : P [])
     (h1 : ∀ t a, P t → P (t ++ [a])) : P l := by
